@@ -420,4 +420,168 @@ Proof.
       * replace i with (S (i - 1)) in Ha by lia. now apply remP_mono.
       * apply negb_true_iff, memN_false. apply negb_true_iff, memN_false in Hf. intros HaA. apply Hf. apply Hel'. now left.
 Qed.
+
+Lemma Run_le j A Y : Run j A Y -> j <= m.
+Proof. induction 1; lia. Qed.
+
+Definition dominated (st : dp_state) (A : paxis) (Y : list N) : Prop :=
+  exists B, tbl_get (s_cur st) (boundary A, Y) = Some B /\ pa_len A <= pa_len B.
+Definition DomAll (k : nat) (st : dp_state) : Prop :=
+  forall j A Y, j <= k -> Run j A Y -> dominated st A Y \/ pa_len A + phi A k <= lg_len st.
+Definition LockedAll (k : nat) (st : dp_state) : Prop :=
+  forall j A Y i X A', Run j A Y -> j < i -> i <= k -> In X (eligible ext_order i m Y Ls votes) ->
+    place pair_first A X votes = (A', false) -> pa_eqb A' A = false ->
+    pa_len A' <= Nat.max (lg_len st) (lk_len st).
+
+Lemma dominated_better st st' A Y : better_table st st' -> dominated st A Y -> dominated st' A Y.
+Proof.
+  intros (H & _ & _) (B & E & L). destruct (H _ _ E) as (B' & E' & L'). exists B'. split; [assumption|lia].
+Qed.
+
+Lemma key_step_better i rem st e : better_table st (key_step pair_first ext_order i m Ls votes rem st e).
+Proof.
+  destruct e as [[bd Y] A]. unfold key_step. destruct (pa_len A + length rem <? pa_len (s_longest st)); [apply better_refl|].
+  apply (fold_left_inv _ (fun s => better_table st s)); [|apply better_refl].
+  intros X _ s' Hs'. eapply better_trans; [exact Hs'|apply ext_step_better].
+Qed.
+
+Lemma key_step_tblok i rem st e : TblOK st -> TblOK (key_step pair_first ext_order i m Ls votes rem st e).
+Proof.
+  intros H. destruct e as [[bd Y] A]. unfold key_step. destruct (pa_len A + length rem <? pa_len (s_longest st)); [assumption|].
+  apply fold_left_inv; [|assumption]. intros X _ s' Hs'. now apply ext_step_tblok.
+Qed.
+
+(* processing the table entry that dominates a run extends the domination to the run's next step *)
+Lemma process_entry k j0 A0 Y0 B0 X A ok s : TblOK s -> Run j0 A0 Y0 -> j0 <= k -> S k <= m ->
+  boundary B0 = boundary A0 -> pa_len A0 <= pa_len B0 ->
+  In X (eligible ext_order (S k) m Y0 Ls votes) -> place pair_first A0 X votes = (A, ok) -> pa_eqb A A0 = false ->
+  let s' := key_step pair_first ext_order (S k) m Ls votes (remP k) s ((boundary A0, Y0), B0) in
+  (ok = true -> dominated s' A X \/ pa_len A + phi A (S k) <= lg_len s') /\
+  (ok = false -> pa_len A <= Nat.max (lg_len s') (lk_len s')).
+Proof.
+  intros Hok HR Hj Hk Hbd Hlen Hel Hpl Hne s'.
+  destruct (phi_step j0 A0 Y0 (S k) X A ok HR ltac:(lia) Hk Hel Hpl Hne) as [Hphi HlenA].
+  replace (S k - 1) with k in Hphi by lia.
+  unfold s', key_step. destruct (Nat.ltb_spec (pa_len B0 + length (remP k)) (pa_len (s_longest s))) as [Hpr|Hnpr].
+  - (* pruned *)
+    pose proof (phi_le A0 k). unfold lg_len. split; intros _; [right|]; lia.
+  - (* every eligible set is tried on B0 *)
+    set (p := place_abs pair_first (boundary B0) X votes).
+    assert (HplB : place pair_first B0 X votes = apply_placed B0 p) by apply place_abs_ok.
+    assert (HplA : (A, ok) = apply_placed A0 p) by (unfold p; rewrite Hbd, <- place_abs_ok; now symmetry).
+    assert (HokB : snd (apply_placed B0 p) = ok) by (rewrite (apply_placed_ok B0 A0 p), <- HplA; reflexivity).
+    assert (HbdB : boundary (fst (apply_placed B0 p)) = boundary A).
+    { rewrite apply_placed_boundary, Hbd, <- apply_placed_boundary, <- HplA. reflexivity. }
+    assert (HlenB : pa_len A <= pa_len (fst (apply_placed B0 p))).
+    { rewrite apply_placed_len. pose proof (apply_placed_len A0 p) as L. rewrite <- HplA in L. cbn [fst] in L. lia. }
+    assert (HneB : pa_eqb (fst (apply_placed B0 p)) B0 = false).
+    { rewrite apply_placed_eqb. pose proof (apply_placed_eqb A0 p) as Q. rewrite <- HplA in Q. cbn [fst] in Q. congruence. }
+    apply (fold_left_elem (ext_step pair_first votes B0) (fun _ => True)
+             (fun s1 => (ok = true -> dominated s1 A X \/ pa_len A + phi A (S k) <= lg_len s1) /\
+                        (ok = false -> pa_len A <= Nat.max (lg_len s1) (lk_len s1)))
+             _ X s Hel I); [auto| |].
+    + intros s1 _. destruct (apply_placed B0 p) as [B' ok'] eqn:EB. cbn [fst snd] in *. subst ok'.
+      destruct (ext_step_post votes pair_first B0 s1 X B' ok HplB) as [P1 P2]. split.
+      * intros ->. destruct (P1 eq_refl) as [(B'' & E & L) _]. left. exists B''. rewrite <- HbdB. split; [assumption|lia].
+      * intros ->. specialize (P2 eq_refl HneB). lia.
+    + intros s1 Y1 _ [Q1 Q2]. pose proof (ext_step_better votes pair_first B0 s1 Y1) as Hb. split.
+      * intros E. destruct (Q1 E) as [D|D]; [left; eapply dominated_better; eauto|right].
+        destruct Hb as (_ & Hb & _). lia.
+      * intros E. specialize (Q2 E). destruct Hb as (_ & Hb1 & Hb2). lia.
+Qed.
+
+Lemma round_step k st : S k <= m -> TblOK st -> DomAll k st -> LockedAll k st ->
+  let st' := fold_left (key_step pair_first ext_order (S k) m Ls votes (remP k)) (s_cur st) st in
+  TblOK st' /\ DomAll (S k) st' /\ LockedAll (S k) st'.
+Proof.
+  intros Hk Hok HD HL st'.
+  assert (Hbetter : better_table st st').
+  { apply (fold_left_inv _ (fun s => better_table st s)); [|apply better_refl].
+    intros e _ s' Hs'. eapply better_trans; [exact Hs'|apply key_step_better]. }
+  assert (Hok' : TblOK st') by (apply fold_left_inv; [intros e _ s' Hs'; now apply key_step_tblok|assumption]).
+  (* the generic argument for a run extended at round k+1 *)
+  assert (Hnew : forall j0 A0 Y0 X A ok, Run j0 A0 Y0 -> j0 <= k -> In X (eligible ext_order (S k) m Y0 Ls votes) ->
+            place pair_first A0 X votes = (A, ok) -> pa_eqb A A0 = false ->
+            (ok = true -> dominated st' A X \/ pa_len A + phi A (S k) <= lg_len st') /\
+            (ok = false -> pa_len A <= Nat.max (lg_len st') (lk_len st'))).
+  { intros j0 A0 Y0 X A ok HR Hj Hel Hpl Hne.
+    destruct (phi_step j0 A0 Y0 (S k) X A ok HR ltac:(lia) Hk Hel Hpl Hne) as [Hphi HlenA].
+    replace (S k - 1) with k in Hphi by lia.
+    destruct (HD j0 A0 Y0 Hj HR) as [(B0 & E0 & L0)|Hdead].
+    - pose proof (tbl_get_In _ _ _ E0) as Hin. destruct (Hok _ _ _ Hin) as [Hbd _].
+      apply (fold_left_elem (key_step pair_first ext_order (S k) m Ls votes (remP k)) TblOK
+               (fun s1 => (ok = true -> dominated s1 A X \/ pa_len A + phi A (S k) <= lg_len s1) /\
+                          (ok = false -> pa_len A <= Nat.max (lg_len s1) (lk_len s1)))
+               _ _ st Hin Hok).
+      + intros s1 e H1. now apply key_step_tblok.
+      + intros s1 H1. now apply (process_entry k j0 A0 Y0 B0 X A ok s1).
+      + intros s1 e _ [Q1 Q2]. pose proof (key_step_better (S k) (remP k) s1 e) as Hb. split.
+        * intros E. destruct (Q1 E) as [D|D]; [left; eapply dominated_better; eauto|right].
+          destruct Hb as (_ & Hb & _). lia.
+        * intros E. specialize (Q2 E). destruct Hb as (_ & Hb1 & Hb2). lia.
+    - destruct Hbetter as (_ & Hb & _). split; intros _; [right|]; lia. }
+  split; [assumption|]. split.
+  - intros j A Y Hj HR. destruct (Nat.eq_dec j (S k)) as [->|Hne].
+    + inversion HR as [|j0 A0 Y0 i X A' HR0 Hlt Hle Hel Hpl]; subst.
+      assert (Hne : pa_eqb A A0 = false).
+      { destruct (eligible_spec alts votes ext_order Hext _ _ _ _ _ Ls_incl Hel) as (x1 & x2 & -> & _).
+        destruct (place_shape _ _ _ _ _ _ _ Hpl) as [[_ E]|(_ & _ & E)]; [discriminate|assumption]. }
+      destruct (Hnew j0 A0 Y0 Y A true HR0 ltac:(lia) Hel Hpl Hne) as [Q _]. now apply Q.
+    + destruct (HD j A Y ltac:(lia) HR) as [D|D]; [left; eapply dominated_better; eauto|right].
+      pose proof (phi_mono A k). destruct Hbetter as (_ & Hb & _). lia.
+  - intros j A Y i X A' HR Hlt Hle Hel Hpl Hne. destruct (Nat.eq_dec i (S k)) as [->|Hni].
+    + destruct (Hnew j A Y X A' false HR ltac:(lia) Hel Hpl Hne) as [_ Q]. now apply Q.
+    + specialize (HL j A Y i X A' HR Hlt ltac:(lia) Hel Hpl Hne). destruct Hbetter as (_ & Hb1 & Hb2). lia.
+Qed.
+
+Definition st0 : dp_state := mk_dp init_table pa_empty pa_empty.
+
+Lemma remP_next k : k < m -> filter (fun c => negb (memN c (nth k Ls []))) (remP k) = remP (S k).
+Proof.
+  intros Hk. unfold remP. rewrite filter_filter_and. apply filter_ext. intros a.
+  assert (E : nth k Ls [] = next_level alts votes (Lspec alts votes k)).
+  { unfold Ls. rewrite get_L_sets_spec. now apply Lspec_nth. }
+  rewrite E. cbn [Lspec]. rewrite concat_app. cbn [concat]. rewrite app_nil_r, memN_app.
+  destruct (memN a (concat (Lspec alts votes k))), (memN a (next_level alts votes (Lspec alts votes k))); reflexivity.
+Qed.
+
+Lemma rounds k : k <= m ->
+  let r := fold_left (outer_step pair_first ext_order m Ls votes) (seq 1 k) (st0, alts) in
+  snd r = remP k /\ TblOK (fst r) /\ DomAll k (fst r) /\ LockedAll k (fst r).
+Proof.
+  induction k as [|k IH]; intros Hk.
+  - cbn [seq fold_left fst snd]. split; [|split; [|split]].
+    + unfold remP. cbn [Lspec concat]. symmetry. apply filter_all_true. reflexivity.
+    + intros bd Y B [E|[]]. injection E as <- <- <-. split; [reflexivity|]. unfold lg_len. cbn. lia.
+    + intros j A Y Hj HR. assert (j = 0) by lia. subst. inversion HR; subst; [|lia]. left. exists pa_empty.
+      split; [|lia]. unfold st0, init_table. cbn [s_cur tbl_get].
+      destruct (key_eq_dec (boundary pa_empty, []) (None, None, None, None, [])) as [|n]; [reflexivity|exfalso; apply n; reflexivity].
+    + intros j A Y i X A' _ H1 H2. lia.
+  - rewrite seq_S, fold_left_app. cbn [fold_left Nat.add]. destruct (IH ltac:(lia)) as (E1 & E2 & E3 & E4).
+    destruct (fold_left (outer_step pair_first ext_order m Ls votes) (seq 1 k) (st0, alts)) as [st rem].
+    cbn [fst snd] in *. subst rem. unfold outer_step. cbn [fst snd].
+    replace (S k - 1) with k by lia. split; [apply remP_next; lia|].
+    now apply round_step.
+Qed.
+
+(* the dynamic programme keeps an axis at least as long as that of every run, and as every locked extension *)
+Theorem dp_dominates_runs :
+  let r := longest_axis pair_first ext_order alts votes in
+  (forall j A Y, Run j A Y -> pa_len A <= S (length (fst r))) /\
+  (forall j A Y i X A', Run j A Y -> j < i -> i <= m -> In X (eligible ext_order i m Y Ls votes) ->
+     place pair_first A X votes = (A', false) -> pa_eqb A' A = false -> pa_len A' <= S (length (fst r))).
+Proof.
+  unfold longest_axis. cbv zeta. cbn [fst]. fold m Ls. fold st0.
+  destruct (rounds m (Nat.le_refl m)) as (_ & Hok & HD & HL).
+  set (stf := fst (fold_left (outer_step pair_first ext_order m Ls votes) (seq 1 m) (st0, alts))) in *.
+  assert (Hres : forall B, S (length (pa_elems B)) = pa_len B).
+  { intros [M1 M2]. unfold pa_elems, pa_len. cbn [fst snd]. rewrite app_length, rev_length. reflexivity. }
+  assert (Hmax : S (length (pa_elems (if pa_len (s_longest stf) <? pa_len (s_locked stf) then s_locked stf else s_longest stf)))
+                 = Nat.max (lg_len stf) (lk_len stf)).
+  { rewrite Hres. unfold lg_len, lk_len. destruct (Nat.ltb_spec (pa_len (s_longest stf)) (pa_len (s_locked stf))); lia. }
+  rewrite Hmax. split.
+  - intros j A Y HR. destruct (HD j A Y (Run_le j A Y HR) HR) as [(B & E & L)|D]; [|lia].
+    apply tbl_get_In in E. destruct (Hok _ _ _ E) as [_ Hle]. lia.
+  - intros j A Y i X A' HR Hlt Hle Hel Hpl Hne. now apply (HL j A Y i X A').
+Qed.
 End Dom.
